@@ -173,6 +173,8 @@ def gen_case(rng, wide=False):
     p['mapping'] = mapping
     p['_sigma'] = sig
     center = float(np.round(rng.uniform(-2000, 2000), int(rng.integers(0, 3))))
+    if wide and rng.random() < 0.15:
+        center += 6731400.0         # far from the origin (UTM northing)
     p['center'] = center
     L = float(10.0**rng.uniform(2, 4))
     how = rng.choice(['domain', 'distance', 'vector', 'vector+domain',
